@@ -44,6 +44,16 @@ class CmdRig:
         frame unreadable for the console, which is charged to the call whose frame is damaged."""
         self.done.append(call)
         case = {"inst": self.inst, "state": self.state, "calls": list(self.done)}
+        inbound = None
+        if call[0] == "with_inbound":
+            # the console is in the middle of sending a (repeated, unchanged) status report when the call is made: the
+            # first `cut` bytes have arrived, the rest follows after the call
+            w = self.rig.console.w
+            st_ = self.rig.console.state
+            fr = w.ac_status(list(st_["acs"].values())) if call[2] == "ac" or not st_["zones"] else w.zone_status(list(st_["zones"].values()))
+            cut = 1 + call[1] % (len(fr) - 1)
+            inbound = (fr[:cut], fr[cut:])
+            call = call[3]
 
         def bad(key, what):
             raise Violation(f"{self.cid}:{key}:{call[0]}", f"{call}: {what}", case)
@@ -59,10 +69,18 @@ class CmdRig:
             pre = refproto.parse_stream(self.gen, tr.tx_bytes()[self._upto:])
             if not pre.error:
                 self._upto += pre.consumed
+        if inbound:
+            self.rig.console.hold = True   # the console finishes this frame before it sends anything else
+            tr.feed(inbound[0])
+            self.rig.loop.settle()
         res = self.rig.loop.call(cmdref.perform(self.rig, ["zone_temp"] + call[1:] if wild else call))
         self.rig.loop.settle()
+        if inbound:
+            tr.feed(inbound[1])
+            self.rig.console.release()
+            self.rig.loop.settle()
         if self.rig.net.current is not tr:
-            bad("reset", "the call disturbed the connection")
+            bad("reset", "the call disturbed the connection" + (" (a status report was arriving in two segments around it)" if inbound else ""))
         new = tr.tx_bytes()[self._upto:]
         pr = refproto.parse_stream(self.gen, new)
         if wild:
@@ -143,7 +161,10 @@ def calls_strategy(inst, state):
             # damage the frames of the calls that follow
             st.tuples(z, st.sampled_from([-30.0, -2.0, 36.0, 50.0, 300.0])).map(lambda t: ["zone_temp_wild", t[0], t[1]]),
         ]
-    return st.one_of(*opts)
+    plain = st.one_of(*opts)
+    # one call in six is made while a status report from the console is half received
+    return st.one_of(plain, plain, plain, plain, plain,
+                     st.tuples(st.integers(0, 400), st.sampled_from(["ac", "zone"]), plain).map(lambda t: ["with_inbound", *t]))
 
 
 def _fine(limits, k):
